@@ -104,10 +104,19 @@ Section Finder.
     | _ => false
     end.
 
-  (* _follows_dot(s) for a start offset s: the last non-blank character before s (same line) is a dot *)
+  (* _follows_dot(s) for a start offset s: the last non-blank character before s (same line) is a dot, and that dot
+     does not end a number (the word before it, if any, does not begin with a digit: `3. else x`) *)
   Definition follows_dot (a : pos) : bool :=
     match fst (last_non_space (fst a) (snd a)) with
-    | d :: _ => N.eqb d ch_dot
+    | d :: lprev =>
+        if N.eqb d ch_dot then
+          let b := last_non_space lprev (Some d) in
+          match fst b with
+          | c :: _ =>
+              if is_id_char c then negb (oc_is is_digit (snd (word_start (fst b) (snd b)))) else true
+          | [] => true
+          end
+        else false
     | [] => false
     end.
 
